@@ -16,6 +16,7 @@ from ..poly import Poly, Rat
 from ..pyfront import dotted, call_name, kwarg, params, src, walk_no_nested, const
 
 EXPLANATION = (
+    "The candidate's displacement between its definition and the squared distance is decided by value (triclinic: floor reduction along c, b, a; rectangular: round(d / L) L; untouched when no image can be closer); the voxel sizes set by the constructor are shown never to be 0; both loop bodies of the brute-force kernel are decided by value numbering.  Further: "
     "The neighbour searches are decided structurally: the brute-force kernel is small enough to establish order, uniqueness (push_back followed by break), self exclusion, strictness of the cutoff "
     "test and the wrap on differences from the guards and statement order of its two loops; for the cell list the symmetric completion argument (collect i>j only, then mirror) is checked as written, "
     "together with the one precondition of the voxel arithmetic that is visible in the code: periodic positions are wrapped into the primary cell before they are hashed, sorted and compared with the box edges.")
